@@ -8,6 +8,7 @@ package ledger
 import (
 	"context"
 	"fmt"
+	"strings"
 	"testing"
 
 	"github.com/algorand/go-algorand/agreement"
@@ -45,13 +46,14 @@ type cevEnv struct {
 }
 
 type cevGenesis struct {
-	nAccts   int
-	balance  uint64                              // per keyed account
-	sinkBal  uint64                              // fee sink
-	poolBal  uint64                              // rewards pool
-	extra    map[basics.Address]basics.AccountData // additional genesis accounts
-	online   int                                 // first k accounts are online (stake for payouts eligibility is not needed by the evaluator)
-	cfgTweak func(*config.Local)
+	nAccts        int
+	balance       uint64                                // per keyed account
+	sinkBal       uint64                                // fee sink
+	poolBal       uint64                                // rewards pool
+	extra         map[basics.Address]basics.AccountData // additional genesis accounts
+	online        int                                   // first k accounts are online (stake for payouts eligibility is not needed by the evaluator)
+	cfgTweak      func(*config.Local)
+	defaultCaches bool
 }
 
 func cevKey(r *kit.Rand) *crypto.SignatureSecrets {
@@ -99,10 +101,23 @@ func cevNewEnv(c *kit.Ctx, t testing.TB, r *kit.Rand, cv protocol.ConsensusVersi
 	var genHash crypto.Digest
 	r.Fill(genHash[:])
 	cfg := config.GetDefaultLocal()
+	var opts []simpleLedgerOption
+	if g.defaultCaches {
+		// one ledger in four: default configuration, on disk (WAL: readers never block on the tracker committer)
+		opts = append(opts, simpleLedgerOnDisk())
+	} else {
+		// in memory. The LRU caches of the account trackers allocate ~2 s worth of zeroed channel buffers per ledger
+		// open and are irrelevant to the evaluator-level properties monitored here. With the shared-cache in-memory
+		// sqlite a background tracker commit makes concurrent reads fail with "database table is locked" (an
+		// artefact of the test database, not of the code under test); keeping all deltas of the short case in memory
+		// (MaxAcctLookback) means no background commit runs while evaluators read.
+		cfg.DisableLedgerLRUCache = true
+		cfg.MaxAcctLookback = 2000
+	}
 	if g.cfgTweak != nil {
 		g.cfgTweak(&cfg)
 	}
-	e.l = newSimpleLedgerFull(t, bookkeeping.MakeGenesisBalances(accts, e.sink, e.pool), cv, genHash, cfg)
+	e.l = newSimpleLedgerFull(t, bookkeeping.MakeGenesisBalances(accts, e.sink, e.pool), cv, genHash, cfg, opts...)
 	e.exec = execpool.MakeBacklog(nil, 0, execpool.LowPriority, nil)
 	return e
 }
@@ -241,4 +256,245 @@ func cevUnsigned(txns []transactions.Transaction) []transactions.SignedTxn {
 		out[i].Txn = txns[i]
 	}
 	return out
+}
+
+// ---------------------------------------------------------------------------------------------
+// a small universe with an asset and applications, used by C19 (failing groups) and C29 (rich blocks)
+
+const cevCounterSrc = `#pragma version 10
+txn ApplicationID
+bz ok
+txn NumAppArgs
+bz incr
+txna ApplicationArgs 0
+byte "reject"
+==
+bnz reject
+txna ApplicationArgs 0
+byte "err"
+==
+bnz doerr
+txna ApplicationArgs 0
+byte "loop"
+==
+bnz loop
+incr:
+byte "n"
+byte "n"
+app_global_get
+int 1
++
+app_global_put
+ok:
+int 1
+return
+reject:
+int 0
+return
+doerr:
+err
+loop:
+int 1
+pop
+b loop
+`
+
+const cevBoxSrc = `#pragma version 10
+txn ApplicationID
+bz ok
+txna ApplicationArgs 0
+byte "create"
+==
+bz notcreate
+txna ApplicationArgs 1
+int 24
+box_create
+assert
+b ok
+notcreate:
+txna ApplicationArgs 0
+byte "delete"
+==
+bz notdelete
+txna ApplicationArgs 1
+box_del
+assert
+b ok
+notdelete:
+txna ApplicationArgs 1
+int 0
+txna ApplicationArgs 2
+box_replace
+ok:
+int 1
+`
+
+// pays 1000 to the caller; with arguments ("chain", x) then calls application Applications[1] with argument x
+// (with "chain0" the inner call declares fee 0, so the outer transaction has to cover it)
+const cevInnerSrc = `#pragma version 10
+txn ApplicationID
+bz ok
+itxn_begin
+int pay
+itxn_field TypeEnum
+txn Sender
+itxn_field Receiver
+int 1000
+itxn_field Amount
+itxn_submit
+txn NumAppArgs
+bz ok
+itxn_begin
+int appl
+itxn_field TypeEnum
+txna Applications 1
+itxn_field ApplicationID
+txna ApplicationArgs 1
+itxn_field ApplicationArgs
+txna ApplicationArgs 0
+byte "chain0"
+==
+bz submit
+int 0
+itxn_field Fee
+submit:
+itxn_submit
+ok:
+int 1
+`
+
+// pays 500 to its caller and then fails if its argument is "fail"
+const cevDeepSrc = `#pragma version 10
+txn ApplicationID
+bz ok
+itxn_begin
+int pay
+itxn_field TypeEnum
+txn Sender
+itxn_field Receiver
+int 500
+itxn_field Amount
+itxn_submit
+txna ApplicationArgs 0
+byte "fail"
+==
+bz ok
+err
+ok:
+int 1
+`
+
+type cevUniverse struct {
+	*cevEnv
+	asset                     basics.AssetIndex // created by accts[0] (manager/freeze/clawback), accts[1..2] hold it, accts[3] holds it frozen, accts[4] is not opted in
+	counter, box, inner, deep basics.AppIndex
+	poor                      cevAcct // an account holding exactly the minimum balance + a little
+	rekeyed                   cevAcct // accts-like account rekeyed to accts[5]
+	noteCtr                   int
+}
+
+func cevAssemble(c *kit.Ctx, src string) []byte {
+	ops, err := logic.AssembleString(src)
+	if err != nil {
+		c.Harness("assemble: %v", err)
+	}
+	return ops.Program
+}
+
+func (u *cevUniverse) note() []byte {
+	u.noteCtr++
+	return []byte(fmt.Sprintf("n%d", u.noteCtr))
+}
+
+func (u *cevUniverse) appCreate(sender basics.Address, src string, rnd basics.Round, gschema basics.StateSchema) transactions.Transaction {
+	clear := cevAssemble(u.c, "#pragma version 10\nint 1")
+	return transactions.Transaction{Type: protocol.ApplicationCallTx, Header: u.hdr(sender, u.proto.MinTxnFee, rnd, u.note()),
+		ApplicationCallTxnFields: transactions.ApplicationCallTxnFields{ApprovalProgram: cevAssemble(u.c, src), ClearStateProgram: clear, GlobalStateSchema: gschema}}
+}
+
+func (u *cevUniverse) appCall(sender basics.Address, app basics.AppIndex, fee uint64, rnd basics.Round, args ...string) transactions.Transaction {
+	t := transactions.Transaction{Type: protocol.ApplicationCallTx, Header: u.hdr(sender, fee, rnd, u.note()),
+		ApplicationCallTxnFields: transactions.ApplicationCallTxnFields{ApplicationID: app}}
+	for _, a := range args {
+		t.ApplicationArgs = append(t.ApplicationArgs, []byte(a))
+	}
+	return t
+}
+
+func (u *cevUniverse) axfer(sender, receiver basics.Address, amount uint64, rnd basics.Round) transactions.Transaction {
+	return transactions.Transaction{Type: protocol.AssetTransferTx, Header: u.hdr(sender, u.proto.MinTxnFee, rnd, u.note()),
+		AssetTransferTxnFields: transactions.AssetTransferTxnFields{XferAsset: u.asset, AssetAmount: amount, AssetReceiver: receiver}}
+}
+
+// mustBlock applies the transactions (each a singleton group) in one block and commits it.
+func (u *cevUniverse) mustBlock(txns ...transactions.Transaction) *ledgercore.ValidatedBlock {
+	ev := u.startEval(true, true, nil)
+	for i := range txns {
+		txns[i].FirstValid = ev.Round()
+		txns[i].LastValid = ev.Round() + 50
+		if err := ev.TransactionGroup(cevWrap(cevUnsigned(txns[i : i+1]))...); err != nil {
+			u.c.Harness("universe setup: transaction %d (%s) failed: %v", i, txns[i].Type, err)
+		}
+	}
+	vb, err := u.commit(ev, basics.Address{})
+	if err != nil {
+		u.c.Harness("universe setup: %v", err)
+	}
+	return vb
+}
+
+// cevNewUniverse needs at least 8 keyed accounts.
+func cevNewUniverse(c *kit.Ctx, t testing.TB, r *kit.Rand, cv protocol.ConsensusVersion, defaultCaches bool, sinkBalance ...uint64) *cevUniverse {
+	poor := cevKey(r)
+	rek := cevKey(r)
+	proto := config.Consensus[cv]
+	extra := map[basics.Address]basics.AccountData{
+		basics.Address(poor.SignatureVerifier): {MicroAlgos: basics.MicroAlgos{Raw: proto.MinBalance + 5*proto.MinTxnFee}, Status: basics.Offline},
+		basics.Address(rek.SignatureVerifier):  {MicroAlgos: basics.MicroAlgos{Raw: 1_000_000_000}, Status: basics.Offline},
+	}
+	sinkBal := uint64(50_000_000_000)
+	if len(sinkBalance) > 0 {
+		sinkBal = sinkBalance[0]
+	}
+	env := cevNewEnv(c, t, r, cv, cevGenesis{nAccts: 8, balance: 1_000_000_000_000, sinkBal: sinkBal, extra: extra, defaultCaches: defaultCaches})
+	u := &cevUniverse{cevEnv: env, poor: cevAcct{addr: basics.Address(poor.SignatureVerifier), sk: poor}, rekeyed: cevAcct{addr: basics.Address(rek.SignatureVerifier), sk: rek}}
+	a := env.accts
+	rnd := basics.Round(1)
+	acfg := transactions.Transaction{Type: protocol.AssetConfigTx, Header: u.hdr(a[0].addr, proto.MinTxnFee, rnd, u.note()),
+		AssetConfigTxnFields: transactions.AssetConfigTxnFields{AssetParams: basics.AssetParams{Total: 1_000_000, UnitName: "X", AssetName: "cev",
+			Manager: a[0].addr, Freeze: a[0].addr, Clawback: a[0].addr, Reserve: a[0].addr}}}
+	rekey := u.pay(u.rekeyed.addr, a[0].addr, 0, proto.MinTxnFee, rnd, u.note())
+	rekey.RekeyTo = a[5].addr
+	vb := u.mustBlock(acfg,
+		u.appCreate(a[0].addr, cevCounterSrc, rnd, basics.StateSchema{NumUint: 1}),
+		u.appCreate(a[0].addr, cevBoxSrc, rnd, basics.StateSchema{}),
+		u.appCreate(a[0].addr, cevInnerSrc, rnd, basics.StateSchema{}),
+		u.appCreate(a[0].addr, cevDeepSrc, rnd, basics.StateSchema{}),
+		rekey)
+	ps := vb.Block().Payset
+	u.asset = ps[0].ApplyData.ConfigAsset
+	u.counter, u.box, u.inner, u.deep = ps[1].ApplyData.ApplicationID, ps[2].ApplyData.ApplicationID, ps[3].ApplyData.ApplicationID, ps[4].ApplyData.ApplicationID
+	if u.asset == 0 || u.counter == 0 || u.box == 0 || u.inner == 0 || u.deep == 0 {
+		c.Harness("universe setup: ids not reported in ApplyData: %+v", ps)
+	}
+	rnd = 2
+	optin := func(acct cevAcct) transactions.Transaction { return u.axfer(acct.addr, acct.addr, 0, rnd) }
+	freeze := transactions.Transaction{Type: protocol.AssetFreezeTx, Header: u.hdr(a[0].addr, proto.MinTxnFee, rnd, u.note()),
+		AssetFreezeTxnFields: transactions.AssetFreezeTxnFields{FreezeAccount: a[3].addr, FreezeAsset: u.asset, AssetFrozen: true}}
+	u.mustBlock(optin(a[1]), optin(a[2]), optin(a[3]),
+		u.axfer(a[0].addr, a[1].addr, 10_000, rnd), u.axfer(a[0].addr, a[2].addr, 10_000, rnd), u.axfer(a[0].addr, a[3].addr, 10_000, rnd),
+		freeze,
+		u.pay(a[0].addr, u.box.Address(), 10_000_000, proto.MinTxnFee, rnd, u.note()),
+		u.pay(a[0].addr, u.inner.Address(), 10_000_000, proto.MinTxnFee, rnd, u.note()),
+		u.pay(a[0].addr, u.deep.Address(), 10_000_000, proto.MinTxnFee, rnd, u.note()))
+	return u
+}
+
+// cevInfra reports errors that come from the test database rather than from the code under test.
+func cevInfra(err error) bool {
+	if err == nil {
+		return false
+	}
+	s := err.Error()
+	return strings.Contains(s, "database table is locked") || strings.Contains(s, "database is locked")
 }
